@@ -458,8 +458,73 @@ def run_invariant_batch(w, batch_no: int, n_items: int) -> None:
         loaded.unload()
 
 
+def run_multiline_literals(w) -> None:
+    """String literals and f-strings which span several source lines inside the lambda of an INDENTED decorator (a method, a function
+    defined in a function): the value shown for an expression that uses the literal is the value of the constant Python compiled -
+    the blanks at the start of its continuation lines belong to it."""
+    import re  # pylint: disable=import-outside-toplevel
+
+    import icontract  # pylint: disable=import-outside-toplevel
+
+    literals = [
+        ('triple-quoted', '"""ab\n{pad}cd"""'), ('triple-quoted-three-lines', '"""ab\n{pad}cd\n{pad}  ef"""'),
+        ('f-string', 'f"""<{{x}}\n{pad}>{{x}}"""'), ('backslash-continued', '"ab\\\n{pad}cd"'),
+        ('continuation-in-the-margin', '"""ab\ncd"""'),
+    ]
+    parts = ["import icontract\n\n"]
+    expected = {}
+    n = 0
+    for indent in (4, 8, 12):
+        for pad_extra in (0, 2):
+            for tag, template in literals:
+                n += 1
+                pad = " " * (indent + pad_extra)
+                lit = template.format(pad=pad)
+                margin = " " * indent
+                # (rendered as a method of a class nested as deeply as the indentation asks for)
+                depth = indent // 4
+                lines = []
+                for level in range(depth):
+                    lines.append(" " * (4 * level) + "class L{}_{}:".format(n, level))
+                lines.append(margin + "@icontract.require(lambda x: len(" + lit + ") < x)")
+                lines.append(margin + "def m(self, x):")
+                lines.append(margin + "    return x")
+                parts.append("\n".join(lines) + "\n\n\n")
+                expected[n] = (tag, indent, pad_extra, lit, ".".join("L{}_{}".format(n, level) for level in range(depth)))
+    loaded = prog.load_source("".join(parts), w.scratch())
+    mod = loaded.module
+    try:
+        for n, (tag, indent, pad_extra, lit, path) in expected.items():
+            x = 0
+            want = len(eval(lit, {"x": x}))  # pylint: disable=eval-used
+            holder = mod
+            for name in path.split("."):
+                holder = getattr(holder, name)
+            try:
+                holder().m(x)
+                msg = "<returned>"
+            except icontract.ViolationError as err:
+                msg = str(err)
+            except BaseException as err:  # pylint: disable=broad-except
+                msg = "<raised {}: {}>".format(type(err).__name__, str(err)[:200])
+            found = re.findall(r"\) was (\d+)$", msg, flags=re.M)
+            w.count("violating_calls")
+            w.count("messages_judged")
+            w.count("multiline_literal_messages")
+            w.count("value_lines_checked")
+            w.case(("multiline-literal", tag, indent, pad_extra))
+            if found != [str(want)]:
+                w.violation("C06/wrong-value", "{} literal in a decorator indented by {} (continuation lines indented by {}): the message shows "
+                            "len(...) as {} but Python computes {}: {!r}".format(tag, indent, indent + pad_extra, found, want, msg[-200:]),
+                            {"multiline_literal": tag, "indent": indent})
+    finally:
+        loaded.unload()
+
+
 def run(w) -> None:
     install_hook()
+    if w.shard == 1 % w.nshards:
+        run_multiline_literals(w)
     n_batches = (6000 if w.tier == "thorough" else 400)
     for b in range(n_batches):
         if b % w.nshards != w.shard:
@@ -472,6 +537,9 @@ def run(w) -> None:
 
 def replay(case, w) -> None:
     install_hook()
+    if "multiline_literal" in case:
+        run_multiline_literals(w)
+        return
     rng = w.rng
     shadow = case.get("shadow", {})
     env = exprs.Env(rng, shadow)
